@@ -19,7 +19,8 @@ Context — the library is supposed to satisfy this property ({pid}: {title}):
 
 Your task: play the maintainer who CLEANS UP the code that implements this property WITHOUT changing its behaviour. Produce TWO INDEPENDENT
 behaviour-preserving refactorings (A and B), each applied to the clean tree on its own, each in a DIFFERENT function among those that implement the
-property (read the source first and pick functions that really matter for it), each changing roughly 8-40 lines. Make them the kind of change a
+property (read the source first and pick functions that really matter for it), each changing roughly 8-40 lines.
+{avoid} Make them the kind of change a
 reviewer would merge: extract a helper function or inline one, restructure nested if/else into early returns or a dispatch table, turn a loop into a
 comprehension or the other way round, use enumerate/zip, hoist or rename local variables, reorder independent statements, merge duplicated branches,
 split a long expression into named steps, replace a flag variable by control flow, simplify boolean conditions (De Morgan, comparison direction), ...
@@ -44,5 +45,13 @@ for p in props:
         subprocess.run(["git", "-C", "/repo", "worktree", "add", "-q", "--detach", wt, "HEAD"], check=True)
     for sub in ("a", "b"):
         os.makedirs(os.path.join(wt, "_seed", sub), exist_ok=True)
-    open(f"/tmp/seedprompts/{pid}_n{rnd}.txt", "w").write(T.format(wt=wt, pid=pid, title=p["title"], statement=p["statement"]))
+    earlier = []
+    ndir = os.path.join(VERIF, "neutral")
+    for d in sorted(os.listdir(ndir)) if os.path.isdir(ndir) else []:
+        if d.startswith(pid):
+            diff = open(os.path.join(ndir, d, "patch.diff")).read()
+            funcs = sorted({l.split("@@")[-1].strip() for l in diff.splitlines() if l.startswith("@@") and l.split("@@")[-1].strip()})
+            earlier.extend(f[:60] for f in funcs)
+    avoid = ("An earlier clean-up round already touched: " + "; ".join(sorted(set(earlier))) + ". Pick OTHER functions (the property depends on several mechanisms) and, if possible, other kinds of refactoring.") if earlier else ""
+    open(f"/tmp/seedprompts/{pid}_n{rnd}.txt", "w").write(T.format(wt=wt, pid=pid, title=p["title"], statement=p["statement"], avoid=avoid))
 print("prompts in /tmp/seedprompts, worktrees /tmp/n%s_C*" % rnd)
